@@ -80,6 +80,7 @@ def make_provider(eng, st, side, cfg=None, name=None):
     st.axiom(ds > 0)
     cref = fixtures.provider_class(eng, cfg, extra={
         "oid_is_path": S("bool", oip), "default_sleep": S("real", ds), "name": C(nm)})
+    cref.info.name = "Prov<%s>" % cfg["name"]
     r = st.alloc(HObj("obj", cref, fields={"_root_path": opt(nm + "._root_path", named("str", nm + "._root_path")),
                                            "_root_oid": NONE, "connection_id": C("conn-" + nm)},
                       meta={"tag": "provider", "side": side, "name": nm}))
@@ -295,6 +296,9 @@ def make_entry(eng, st, state_ref, prefix):
     o.fields["_storage_id"] = opt(prefix + ".storage_id", named("int", prefix + ".storage_id"))
     o.fields["_priority"] = named("real", prefix + ".priority")
     o.fields["_parent"] = state_ref
+    o.meta = dict(o.meta)
+    o.meta["initial"] = {"_ignored": o.fields["_ignored"], "_priority": o.fields["_priority"],
+                         0: dict(st.obj(s0).fields), 1: dict(st.obj(s1).fields)}
     # representation invariant assumed of every entry handed to the engine (maintained by the `changed` fix-up in
     # SyncState.updated; checked at run time by the C11 bounded stand-in): never both sides flagged changed with
     # neither side having an oid.  Without it SyncState.updated('changed') recurses without bound.
@@ -340,10 +344,35 @@ def make_state(eng, st, providers):
         "_nmgr": NONE,
         "data_id": NONE,
     }
+    st.axiom(z3.Real("state._last_changed_time") > 0)
+    st.axiom(z3.Real("clock.now") > 0)
     r = st.alloc(HObj("obj", scls, fields=fields, meta={"tag": "state", "entries": []}))
     fields["prioritize"] = st.alloc(HObj("opaque", None, meta={"tag": "prioritize", "call": _prioritize_call}))
-    fields["_oids"] = st.alloc(HObj("opaque", None, meta={"tag": "index"}))
-    fields["_paths"] = st.alloc(HObj("opaque", None, meta={"tag": "index"}))
+    # the two indexes as *open* dicts: bindings touched by the code under verification are tracked, the rest of each
+    # map is unknown (any key may be bound to some other entry)
+    # An entry found through an index satisfies the index invariant for the binding it was found under (I1 / I2):
+    # it carries that oid (and path) on that side.
+    def gen_entry_for(side, path=None):
+        def gen_entry(eng_, s_, key):
+            e = _fresh_entry(eng_, s_, r, "indexed")
+            so = s_.obj(side_of(s_, e, side))
+            so.fields["_oid"] = key
+            if path is not None:
+                so.fields["_path"] = path
+            e_o = s_.obj(e)
+            e_o.meta = dict(e_o.meta)
+            e_o.meta["initial"] = {"_ignored": e_o.fields["_ignored"], "_priority": e_o.fields["_priority"],
+                                   0: dict(s_.obj(side_of(s_, e, 0)).fields), 1: dict(s_.obj(side_of(s_, e, 1)).fields)}
+            assume_entry_invariants(eng_, s_, e)
+            return e
+        return gen_entry
+
+    def gen_inner_for(side):
+        def gen_inner(eng_, s_, key):
+            return s_.alloc(HObj("dict", "dict", meta={"open": True, "gen": gen_entry_for(side, key), "tag": "index-inner"}))
+        return gen_inner
+    fields["_oids"] = T([st.alloc(HObj("dict", "dict", meta={"open": True, "gen": gen_entry_for(i), "tag": "index"})) for i in (0, 1)])
+    fields["_paths"] = T([st.alloc(HObj("dict", "dict", meta={"open": True, "gen": gen_inner_for(i), "tag": "index"})) for i in (0, 1)])
     return r
 
 
@@ -516,8 +545,11 @@ def fx_world(eng, st, pname):
     install_state_lookups(eng)
     install_temp_contracts(eng)
     install_split_contract(eng)
+    install_runnable_models(eng)
     from . import fixtures
     fixtures.install_normalize_path_model(eng)
+    if eng.cur_lemma.opts.get("fixed_clock"):
+        eng.handlers["clock"] = lambda e, s_, r, a, k: e.ok(s_, named("real", "clock.now"))
     for nm in eng.cur_lemma.opts.get("inline", ()):
         eng.handlers.pop(nm, None)
     for nm, spec in eng.cur_lemma.opts.get("stubs", {}).items():
@@ -537,12 +569,52 @@ def fx_world(eng, st, pname):
         nm = py_of(args[0]) if args else "info"
         return eng_.ok(s, new_oinfo(eng_, s, nm))
 
+    def m_runnable(eng_, s, recv, args, kwargs):
+        rc = cls(eng_, "cloudsync.runnable:Runnable")
+        flds = {"in_backoff": named("real", "run.in_backoff"), "min_backoff": named("real", "run.min_backoff"),
+                "max_backoff": named("real", "run.max_backoff"), "mult_backoff": named("real", "run.mult_backoff"),
+                "_Runnable__shutdown": named("bool", "run.shutdown"), "_Runnable__stopping": named("bool", "run.stopping"),
+                "_Runnable__stopped": named("bool", "run.stopped"), "_Runnable__clear_on_success": named("bool", "run.clear_on_success"),
+                "_Runnable__interrupt": NONE, "_Runnable__thread": NONE, "_Runnable__log": NONE,
+                "service_name": C("svc"), "_run_until": NONE}
+        return eng_.ok(s, s.alloc(HObj("obj", rc, fields=flds, meta={"tag": "runnable"})))
+
+    def m_cloud_exception(eng_, s, recv, args, kwargs):
+        names = list(CLOUD_EXC)
+        allowed = [cls(eng_, "cloudsync.exceptions:" + n) for n in names]
+        if args and py_of(args[0]) == "any":
+            allowed += [ClassRef("Exception"), ClassRef("ValueError"), ClassRef("OSError"), ClassRef("KeyError")]
+        return eng_.ok(s, eng_.sym_exc(s, allowed, prefix="exc"))
+
+    def m_notification_manager(eng_, s, recv, args, kwargs):
+        nc = cls(eng_, "cloudsync.notification:NotificationManager")
+
+        def q_put(e_, s_, r_, a_, k_):
+            s_.effects.append(Effect("queue", "put", list(a_), {}, None))
+            return e_.ok(s_, NONE)
+        q = s.alloc(HObj("opaque", None, meta={"tag": "queue", "methods": {"put": q_put}}))
+        handler = s.alloc(HObj("opaque", None, meta={"tag": "handler"}))
+        flds = {"_NotificationManager__queue": q, "_NotificationManager__handler": handler, "_run_until": NONE}
+        return eng_.ok(s, s.alloc(HObj("obj", nc, fields=flds, meta={"tag": "nmgr_real"})))
+
+    def m_resolve_file(eng_, s, recv, args, kwargs):
+        nm = py_of(args[0])
+        side = args[1]
+        noop = lambda e, s_, r, a, k: e.ok(s_, NONE)
+        flds = {"otype": fresh_enum(eng_, s, "cloudsync.types:OType", nm + ".otype"), "side": side,
+                "path": named("str", nm + ".path"), "hash": named("Hash", nm + ".hash")}
+        return eng_.ok(s, s.alloc(HObj("opaque", None, fields=flds,
+                                       meta={"tag": "resolve_file", "methods": {"read": noop, "close": noop, "seek": noop}})))
+
     fields = {"mgr": w["manager"], "state": w["state"], "p0": w["providers"][0], "p1": w["providers"][1],
               "providers": T(w["providers"]), "nmgr": w["nmgr"]}
     for k, v in cfg.items():
         if k != "name" and isinstance(v, (int, bool, str)):
             fields[k] = C(v)
-    r = st.alloc(HObj("opaque", None, fields=fields, meta={"tag": "world", "methods": {"entry": m_entry, "oinfo": m_oinfo}}))
+    r = st.alloc(HObj("opaque", None, fields=fields, meta={"tag": "world", "methods": {"entry": m_entry, "oinfo": m_oinfo, "runnable": m_runnable,
+                                                        "cloud_exception": m_cloud_exception,
+                                                        "notification_manager": m_notification_manager,
+                                                        "resolve_file": m_resolve_file}}))
     eng.inputs[pname] = "world"
     return r
 
@@ -581,7 +653,72 @@ def _b_is_dirty(eng, st, recv, args, kwargs):
     return eng.ok(st, P.mk_bool(absset_member(st, st.obj(state).fields["_dirtyset"], ent)))
 
 
+def _b_calls(eng, st, recv, args, kwargs):
+    """calls("name"): the logged calls of a stubbed / contracted callee or of the state (storage_commit, ...)"""
+    nm = py_of(args[0])
+    items = [_effect_obj(eng, st, e) for e in st.effects if e.method == nm and not isinstance(e.recv, int)]
+    return eng.ok(st, T(items))
+
+
+def _b_effect_order(eng, st, recv, args, kwargs):
+    """effect_names(): the names of all logged effects in order (provider writes as 'write:<method>')"""
+    out = []
+    for e in st.effects:
+        if isinstance(e.recv, int):
+            out.append(C(("write:" if e.method in PROVIDER_API_WRITES else "read:") + e.method))
+        else:
+            out.append(C(e.method))
+    return eng.ok(st, T(out))
+
+
+def _b_clock(eng, st, recv, args, kwargs):
+    """now(): the value the (single, fixed) clock returns inside the call under verification"""
+    return eng.ok(st, named("real", "clock.now"))
+
+
+PERSISTED_SIDE_FIELDS = ("_otype", "_hash", "_changed", "_sync_hash", "_sync_path", "_path", "_oid", "_exists",
+                         "_temp_file", "_size", "_mtime", "_saved_exists")
+
+
+def _b_all_entries(eng, st, recv, args, kwargs):
+    """all_entries(state): every entry in scope, including those the code found through the indexes"""
+    return eng.ok(st, T(known_entries(st, args[0])))
+
+
+def _b_persisted_changed(eng, st, recv, args, kwargs):
+    """persisted_changed(ent): some persisted field of the entry differs from its value at the start"""
+    ent = args[0]
+    eo = st.obj(ent)
+    init = eo.meta.get("initial")
+    if init is None:
+        return eng.ok(st, TRUE)     # created during the call: counts as changed
+    diffs = [znot(P.eq(st, eo.fields["_ignored"], init["_ignored"]))]
+    for sd in (0, 1):
+        so = st.obj(side_of(st, ent, sd))
+        for f in PERSISTED_SIDE_FIELDS:
+            diffs.append(znot(P.eq(st, so.fields[f], init[sd][f])))
+    st.pending = []
+    return eng.ok(st, P.mk_bool(zor(*diffs)))
+
+
+def _b_flag_with_oid(eng, st, recv, args, kwargs):
+    """has_pending_change(ent): some side has a change flag and an oid (the membership rule of the pending set)"""
+    ent = args[0]
+    cs = []
+    for sd in (0, 1):
+        so = st.obj(side_of(st, ent, sd))
+        cs.append(zand(P.truth(st, so.fields["_changed"]), P.truth(st, so.fields["_oid"])))
+    st.pending = []
+    return eng.ok(st, P.mk_bool(zor(*cs)))
+
+
 def install_dsl():
+    B.BUILTIN_FUNCS["all_entries"] = _b_all_entries
+    B.BUILTIN_FUNCS["persisted_changed"] = _b_persisted_changed
+    B.BUILTIN_FUNCS["has_pending_change"] = _b_flag_with_oid
+    B.BUILTIN_FUNCS["calls"] = _b_calls
+    B.BUILTIN_FUNCS["effect_names"] = _b_effect_order
+    B.BUILTIN_FUNCS["now"] = _b_clock
     B.BUILTIN_FUNCS["provider_calls"] = _b_provider_calls
     B.BUILTIN_FUNCS["provider_writes"] = _b_provider_writes
     B.BUILTIN_FUNCS["notifications"] = _b_notifications
@@ -717,9 +854,26 @@ def h_get_all(eng, st, self_v, args, kwargs):
     return eng.ok(st, _entries_abslist(eng, st, self_v, "all", lambda e, s, v: BT))
 
 
+def _b_set_kids(eng, st, recv, args, kwargs):
+    """set_kids(state, kid, rel): for this lemma get_kids yields exactly the one child (kid, rel).  Iterations of the
+    loops over get_kids touch only their own child, so one arbitrary child stands for all of them."""
+    state, kid, rel = args
+    so = st.obj(state)
+    so.meta = dict(so.meta)
+    so.meta["kids_override"] = (kid, rel)
+    return eng.ok(st, NONE)
+
+
+B.BUILTIN_FUNCS["set_kids"] = _b_set_kids
+
+
 def h_get_kids(eng, st, self_v, args, kwargs):
     parent_path, side = args[0], args[1]
     sd = py_of(side)
+    ov = st.obj(self_v).meta.get("kids_override")
+    if ov is not None:
+        st.effects.append(Effect("state", "get_kids", [parent_path, side], {}, None))
+        return eng.ok(st, st.alloc(HObj("list", "list", items=[T([ov[0], ov[1]])])))
     known = known_entries(st, self_v)
 
     def gen(eng_, s_):
@@ -844,6 +998,7 @@ def h_get_latest(eng, st, self_v, args, kwargs):
     (info_oid logged as a read); refreshed fields become arbitrary"""
     ent = self_v
     sides = kwargs.get("sides", args[1] if len(args) > 1 else T([C(0), C(1)]))
+    st.effects.append(Effect("entry", "get_latest", [ent, T(eng.iter_concrete(st, sides))], {}, None))
     for sv in eng.iter_concrete(st, sides):
         sd = py_of(sv)
         did = z3.Bool(P.fresh_name("get_latest.%d.did" % sd))
@@ -1011,6 +1166,12 @@ def auto_havoc_object(eng, st, addr, fields=None):
         return
     if tag in ("state", "manager", "world", "index"):
         return
+    if o.kind == "obj" and fields and None not in fields:
+        for f in fields:
+            if f in o.fields:
+                o.fields[f] = havoc_value(eng, st, o.fields[f], f)
+        st.touch(o)
+        return
     raise OutOfSubset("abstract loop writes an object the verifier cannot havoc (kind %s, tag %s)" % (o.kind, tag))
 
 
@@ -1157,3 +1318,63 @@ def h_split(eng, st, self_v, args, kwargs):
 
 def install_split_contract(eng):
     eng.handlers["cloudsync.sync.state:SyncState.split"] = h_split
+
+
+# ---------------------------------------------------------------------------------------------
+# Runnable.run: the work function `do` as an arbitrary callee
+# ---------------------------------------------------------------------------------------------
+
+def h_runnable_do(eng, st, self_v, args, kwargs):
+    """Runnable.do (abstract): any of -- returns having done something; returns after nothing_happened();
+    asks for a back-off (raises _BackoffError); raises any Exception; raises a BaseException."""
+    o = st.obj(self_v)
+    before = o.fields.get("in_backoff", C(Fraction(0)))
+    res = []
+
+    def log(s, kind):
+        s.effects.append(Effect("runnable", "do", [before, C(kind)], {}, None))
+    s = st.clone()
+    log(s, "did-something")
+    res.append((s, (VAL, NONE)))
+    s = st.clone()
+    log(s, "nothing-happened")
+    s.obj(self_v).fields["_Runnable__clear_on_success"] = FALSE
+    s.touch(s.obj(self_v), "_Runnable__clear_on_success")
+    res.append((s, (VAL, NONE)))
+    s = st.clone()
+    log(s, "backoff")
+    res.append((s, (RAISE, eng.new_exc(s, cls(eng, "cloudsync.runnable:_BackoffError")))))
+    s = st.clone()
+    log(s, "exception")
+    res.append((s, (RAISE, eng.sym_exc(s, [ClassRef("Exception"), ClassRef("ValueError"), ClassRef("OSError"),
+                                           cls(eng, "cloudsync.exceptions:CloudTemporaryError")], prefix="do.exc"))))
+    s = st
+    log(s, "base-exception")
+    res.append((s, (RAISE, eng.sym_exc(s, [ClassRef("KeyboardInterrupt"), ClassRef("SystemExit"), ClassRef("GeneratorExit")],
+                                       prefix="do.bexc"))))
+    return res
+
+
+def h_time_helper(eng, st, self_v, args, kwargs):
+    """runnable.time_helper(timeout): yields True an unknown number of times (eager abstraction of the generator)"""
+    return eng.ok(st, B.new_abslist(eng, st, lambda e, s: [(s, TRUE)], name="ticks"))
+
+
+def h_interruptable_sleep(eng, st, self_v, args, kwargs):
+    st.effects.append(Effect("runnable", "interruptable_sleep", list(args), {}, None))
+    return eng.ok(st, NONE)
+
+
+def h_done(eng, st, self_v, args, kwargs):
+    st.effects.append(Effect("runnable", "done", [], {}, None))
+    return eng.ok(st, NONE)
+
+
+def install_runnable_models(eng):
+    eng.handlers["cloudsync.runnable:Runnable.do"] = h_runnable_do
+    eng.handlers["cloudsync.runnable:time_helper"] = h_time_helper
+    eng.handlers["cloudsync.runnable:Runnable.interruptable_sleep"] = h_interruptable_sleep
+    eng.handlers["cloudsync.runnable:Runnable.done"] = h_done
+
+
+from fractions import Fraction  # noqa: E402
